@@ -522,6 +522,16 @@ Next ==
 
 Spec == Init /\ [][Next]_vars
 
+\* exploration bound (CONSTRAINT): a defect that leaks accounting on every rollback would make the state space
+\* infinite; states whose node accounting is beyond twice the capacity (a pipelined pod may sit on top of a
+\* releasing one) are not expanded. The first leaking step is always within the bound and is judged.
+Bounded ==
+  \A n \in Nodes :
+    /\ node[n].uc <= 2 * cfg.nodes[n].cpu /\ node[n].uc >= 0 /\ node[n].ic >= 0 - cfg.nodes[n].cpu
+    /\ node[n].ug <= 2000 * NG(n) /\ node[n].ug >= 0 /\ node[n].ig >= 0 - 1000 * NG(n) /\ node[n].ig <= 2000 * NG(n)
+    /\ node[n].rg <= 2000 * NG(n) /\ node[n].rg >= 0 - 2000 * NG(n)
+    /\ \A g \in Groups : node[n].um[g] <= 2 * GpuMem /\ node[n].um[g] >= 0 /\ node[n].am[g] <= 2 * GpuMem /\ node[n].am[g] >= 0
+
 \* export of behaviours: one line per transition = the labels of a path from Init that ends with it
 PathOut == PrintT("PATH " \o ToJson(hist'))
 
